@@ -17,12 +17,20 @@ earlier, possibly abandoned transfer left in the other fields):
                             modulo-256 sums of the section / the file, also after repeated sections
 * `download_provider_told`  the provider is told success, once, at the end
 
+and for ARBITRARY histories (any requests of any type in any order on any connection, truncated or
+unrelated ASDUs, repeated messages, any clock with any number of supervision timeouts, uploads in
+between), as long as the master does not itself decline a section with a negative CALL SECTION:
+
+* `success_only_if_all_octets`  at every point where `transferComplete(true)` is reported, the octets a
+                            procedure-following master has reassembled from the messages sent so far in this
+                            transfer are exactly the file (and no pass is half-received)
+
 Hypotheses that the statement of C20 does not make and that the proof needs — both recorded in
 DESIGN.md: sections are non-empty and there is at least one (an EMPTY file is announced as an
 empty section 1 and the procedure cannot complete: observation, not claimed); at most 254 sections
 (the section name is one octet).
 -/
-import Iec.Lemmas.FileSrv
+import Iec.Lemmas.FileSrvSafety
 namespace Iec.Props.C20
 open Iec.FileSrv
 
@@ -145,6 +153,20 @@ theorem download_provider_told (e : Env) (s0 : Srv) (conn now oa : Nat) (plan : 
   rw [List.filter_eq_nil_iff.mpr (by intro o ho; simp [hnone o ho])]
   simp
 
+/-- **C20, safety.** Whatever unrelated, out-of-sequence or repeated messages and timeouts occur: success is
+reported to the provider only when every octet of the file has been transferred.  `ops` is any history of
+ASDUs and task calls (any connection, any clock) in which the master does not decline a section; the server
+starts in any state outside a download (in particular the fresh one).  `SafeFrom`: at each `complete true`
+in the trace the reassembly of everything sent before it equals the file. -/
+theorem success_only_if_all_octets (e : Env) (ok : FileOk e) (s0 : Srv) (h0 : Inert s0.st) (ops : List Op)
+    (hnd : ∀ op ∈ ops, NoDecline op) :
+    SafeFrom e.file.flatten ⟨[], [], 0⟩ (run e s0 ops).2 :=
+  run_safe ok ops s0 ⟨[], [], 0⟩ (Good.of_inert h0) hnd
+
+/-- the same from any state reached by any such history (the invariant is inductive) -/
+theorem invariant_inductive (e : Env) (ok : FileOk e) (s : Srv) (r : Rx) (g : Good e s r) (op : Op) (hnd : NoDecline op) :
+    Good e (step e s op).1 (rxFold r (step e s op).2) := step_good ok g op hnd
+
 /-! non-vacuity: a two-section file, segment size 3, one negative acknowledgement for section 1, from an idle
 state that still carries the checksum of an abandoned transfer -/
 def exEnv : Env := { file := [[1, 2, 3, 4, 250], [9]], fca := 5, fioa := 100, fnof := 2, hasFiles := true, hasReady := false,
@@ -154,5 +176,18 @@ example : PlanFor exEnv exPlan := ⟨rfl, by decide, by decide, by decide⟩
 example : (run exEnv { maxSeg := 3, secChk := 77, fileChk := 13 } (downloadOps exEnv 0 0 7 3 exPlan)).2 =
     downloadOut exEnv 0 0 7 3 exPlan := by decide
 example : received (downloadOut exEnv 0 0 7 3 exPlan) = [1, 2, 3, 4, 250, 9] := by decide
+example : FileOk exEnv := ⟨by decide, by decide⟩
+/-- a history with an out-of-sequence CALL SECTION (refused), a truncated request, a request on another
+connection and a jump of the clock still ends in a reported success -/
+def exOps : List Op :=
+  [.asdu 0 0 (mSelect exEnv 7), .asdu 0 10 (mCallFile exEnv 7), .asdu 0 20 (mCallSection exEnv 7 2),
+   .asdu 1 25 { tid := 123, cot := 13, neg := false, ca := 5, oa := 7, obj := none },
+   .asdu 0 30 (mCallSection exEnv 7 1), .task 1 35, .task 0 40, .task 0 2900, .task 0 5000,
+   .asdu 0 5100 (mAck exEnv 7 1 3), .asdu 0 5200 (mCallSection exEnv 7 2), .task 0 5300, .task 0 5400,
+   .asdu 0 5500 (mAck exEnv 7 2 3), .asdu 0 5600 (mAck exEnv 7 2 1)]
+example : ∀ op ∈ exOps, NoDecline op := by
+  intro op h; simp only [exOps, List.mem_cons, List.mem_nil_iff, or_false] at h
+  rcases h with h | h | h | h | h | h | h | h | h | h | h | h | h | h | h <;> subst h <;> simp [NoDecline, mSelect, mCallFile, mCallSection, mAck]
+example : Out.complete true ∈ (run exEnv { maxSeg := 3 } exOps).2 := by decide
 
 end Iec.Props.C20
